@@ -244,6 +244,15 @@ class GetterProfile(StoreProfile):
             run.check(a1 == full.get(k), "C16.get_attr", dict(det, sid=v.uri, key=k, got=a1, want=full.get(k)))
             if cfg == m.default_config and (m.routing.get(v.type) or {}).get("getter"):
                 run.check(a2 == full.get(k), "C16.sid_get_attr", dict(det, sid=v.uri, key=k, got=a2, want=full.get(k)))
+            # the caller edits the record it got (nested values too); the next read of that Sid is the stored data again
+            o3 = run.do(X.seq(X.call("mutate_nested", X.meth(G, "get_data", v.string, **kw)), X.meth(G, "get_data", v.string, **kw),
+                              X.meth(G, "get_one", v.string, **kw)))["~seq"]
+            if not X.is_exc(o3[0]):
+                again = X.decode(o3[1])
+                run.check(again == recs[0], "C16.record_changed_by_a_callers_edit",
+                          dict(det, sid=v.uri, first=recs[0], after_edit=again, nested_values_edited=o3[0]))
+                if isinstance(o3[0], int) and o3[0] > 0:
+                    run.probes["caller_edited_nested_values_of_a_record"] += 1
             run.case_mark(party, s, attrs, enc, [r.get("sid") for r in recs if isinstance(r, dict)][:6], len(recs))
         run.state_mark(sorted((c, sorted(st.attrs[c])) for c in m.configs))
 
